@@ -172,6 +172,8 @@ class File(Component):
                 self._buffer.appendleft(data[nbytes:])
         except OSError as e:
             if e.args[0] in (EWOULDBLOCK, EINTR):
+                # nothing was written, try again when writable
+                self._buffer.appendleft(data)
                 return
             self.fire(error(e))
             self._close()
